@@ -378,6 +378,9 @@ class TG:
     def preamble(self):
         p, r = self.p, self.r
         p.add(0, 'print "@@RUN@@"')
+        p.add(0, "zint = 7")
+        p.add(0, "zopt_i: int? = 5")
+        p.add(0, "zopt_s: str? = \"o\"")
         # classes
         for ci in range(r.choice([1, 2])):
             cn = self.fresh("K")
@@ -520,7 +523,7 @@ class TG:
         if c < 0.62:
             fnn = r.choice(list(self.funcs))
             ft = self.funcs[fnn]
-            parts = ["%s(" % fnn]
+            parts = [Site("callee", ft, fnn, ctx), "("]
             for i, a in enumerate(ft[1]):
                 if i:
                     parts.append(", ")
